@@ -27,7 +27,11 @@ RULE = (
     "record write is additionally cut at every byte offset (records up to 200 bytes; offsets 1, "
     "middle, len-1 for longer ones); a crash while V holds the lock is followed by virtual time "
     "passing the grace period. SQLite and cached SQLite: a real forked victim process SIGKILLs "
-    "itself at every SQLAlchemy begin / statement / commit event boundary. Oracle: with A = the "
+    "itself at every SQLAlchemy begin / statement / commit event boundary; and (enumeration "
+    "'sqlite_init') the very first worker of a new database file is killed at every SQL event of "
+    "RDBStorage(url) (schema creation, version stamp) and of its first two writes, after which "
+    "later workers open the file with the public constructor, must see exactly the acknowledged "
+    "writes and work on. Oracle: with A = the "
     "victim's calls that had returned, the state seen by S1 and by S2 equals ModelStorage after A, "
     "or after A plus the interrupted call applied wholly, never anything else; then every "
     "continuation call returns what the model returns, and S1, S2 and a final fresh opener show "
